@@ -9062,6 +9062,7 @@ class SVG(Group):
         root = context
         styles = {}
         stack = []
+        viewports = []  # percentage reference sizes of the enclosing svg elements
 
         values = {
             SVG_ATTR_COLOR: color,
@@ -9186,6 +9187,7 @@ class SVG(Group):
                     # The ordering for transformations on the SVG object are:
                     # explicit transform, parent transforms, attribute transforms, viewport transforms
                     s = SVG(values)
+                    viewports.append((width, height))
 
                     if width is None:
                         # If a dim was not provided but a viewbox was, use the viewbox dim as physical size, else 1000
@@ -9405,6 +9407,9 @@ class SVG(Group):
                     clip -= 1
                 elif SVG_TAG_USE == tag:
                     use -= 1
+                elif SVG_NAME_TAG == tag and len(viewports) > 1:
+                    # Leaving a nested svg: percentages refer to the outer viewport again.
+                    width, height = viewports.pop()
                 if s is not None:
                     if root is None:
                         root = s
